@@ -52,6 +52,8 @@ FIXED = [
  ("KF-C09-1", "C09", "468b424", "C09.driver_handlers", "finishing generators out of order / after the overlay ended leaves or re-installs handler collections in the driver's context"),
  ("KF-C09-2", "C09", "468b424", "C09.no_foreign_events", "while a generator is suspended, a call made by its driver is matched as if made inside the generator"),
  ("KF-C09-4", "C09", "5958c50", "C09.no_foreign_events", "a generator resumed by throw() (its handler catches) calls another function before binding anything: that call is not matched as made under the generator (gen > g > a gets no event), because the generator only takes its handlers back at its next instrumented binding"),
+ ("KF-C05-7", "C05", "a89bad3", "C05.exactly_once", "an overlay whose with-block is over receives events again: a generator started while it was active keeps the collection it was started with and puts it back in force, for the calls it makes, each time it is resumed (side effect of 468b424)"),
+ ("KF-C09-5", "C09", "a89bad3", "C09.no_foreign_events", "a probe or overlay activated while a generator is suspended hears nothing of the calls the generator makes once it runs again (the generator keeps the collection it was started with; side effect of 468b424)"),
  ("KF-C08-1", "C08", "58916a9", "C08.quiescent", "two threads activating probes on the same function race in _tooler/push/_apply: 'NoneType is not iterable' / not properly tooled / counters left over"),
  ("KF-C17-4", "C17", "1c11048", "demo:findings/review/R4/demo_1.py", "a probe whose deactivation fails before anything is undone (attempted from a copy of the context it was activated in) is marked as torn down all the same: no later deactivate(), nor the exit hook, ever uninstalls it (regression of 0f26a75)"),
  ("KF-C08-3", "C08", "a93c42f", "C08.no_exception", "a thread that selects a function through its reference string while another thread activates or deactivates a probe on it is refused: 'Reference ... cannot be resolved' / 'is ambiguous' (the lookup is not covered by the tooling lock)"),
